@@ -1299,6 +1299,213 @@ def misc_configs() -> List[Dict[str, Any]]:
         [{"kind": "independence", "which": w, "field": f} for w in (0, 1, 2) for f in ("client_info", "metadata")]
 
 
+# ---------------------------------------------------------------------------
+# the same behaviour in an interpreter that runs with assertions disabled (python -O / -OO, PYTHONOPTIMIZE): a
+# sequential search to a small depth plus the mass-expiry and near-miss batteries, executed in a child interpreter
+# ---------------------------------------------------------------------------
+RUN_CHILD = "vf.checks.c19:run_in_child_interpreter"
+CHILD_FLAGS = ["-O", "-OO"]
+
+
+def child_battery(depth: int) -> Dict[str, Any]:
+    """Runs INSIDE the child: every history of length <= depth (each extended by every enabled operation), then the other
+    batteries.  Returns violations (signature + message) and counts."""
+    import logging
+
+    logging.disable(logging.CRITICAL)
+    viol: List[dict] = []
+    executions = 0
+    seen = set()
+    frontier: List[List[int]] = [[]]
+    for _d in range(depth):
+        nxt: List[List[int]] = []
+        for h in frontier:
+            obs = run_one(explorer.Ctl(), {"h": h})
+            executions += obs["counters"].get("executions", 0)
+            viol.extend(obs["violations"])
+            for code, key, _dig in obs["succ"]:
+                if key not in seen:
+                    seen.add(key)
+                    nxt.append(h + [code])
+        frontier = nxt
+    for cfg in misc_configs():
+        obs = run_misc(explorer.Ctl(), cfg)
+        executions += 1
+        viol.extend(obs["violations"])
+    for cfg in near_configs()[::7]:
+        obs = run_near(explorer.Ctl(), cfg)
+        executions += 1
+        viol.extend(obs["violations"])
+    firsts: Dict[str, dict] = {}
+    for v in viol:
+        firsts.setdefault(json.dumps(v["sig"], sort_keys=True), v)
+    return {"executions": executions, "states": len(seen), "violating": len(viol), "violations": list(firsts.values())[:12],
+            "asserts_enabled": bool(__debug__)}
+
+
+def run_in_child_interpreter(ctl: explorer.Ctl, cfg: Dict[str, Any]) -> Dict[str, Any]:
+    import os
+    import subprocess
+    import sys
+
+    flag, depth = CHILD_FLAGS[cfg["flag"]], cfg["depth"]
+    code = ("import json,sys\nfrom vf.checks import c19\n"
+            f"sys.stdout.write('RESULT ' + json.dumps(c19.child_battery({depth}), default=repr))\n")
+    env = dict(os.environ)
+    env["PYTHONHASHSEED"] = "0"
+    p = subprocess.run([sys.executable, flag, "-c", code], capture_output=True, text=True, timeout=600, env=env)
+    line = [ln for ln in p.stdout.splitlines() if ln.startswith("RESULT ")]
+    if p.returncode != 0 or not line:
+        raise core.HarnessError(f"child interpreter ({flag}) failed: exit {p.returncode}: {p.stderr[-400:]}")
+    out = json.loads(line[-1][7:])
+    if out["asserts_enabled"]:
+        raise core.HarnessError(f"seam missing: the child started with {flag} still runs assert statements")
+    viol = [{"sig": dict(v["sig"], interpreter="assertions-disabled"), "msg": f"[python {flag}] " + v["msg"]} for v in out["violations"]]
+    return {"outcome": f"{flag}:states{out['states']}", "violations": viol,
+            "counters": {"child-interpreter-executions": out["executions"], "child-interpreter-violating": out["violating"]}}
+
+
+# ---------------------------------------------------------------------------
+# other session stores plugged into the handler: a request that carries a live session's id counts as its activity
+# ---------------------------------------------------------------------------
+RUN_STORES = "vf.checks.c19:run_other_store"
+OTHER_STORES = ["stock", "subclass:deep-copies-on-read", "own-implementation:rows-as-dicts"]
+STORE_MESSAGES = ["ping", "unknown-method", "notification", "second-initialize", "tools-less-request-with-params", "no-message"]
+
+
+def make_other_store(kind: str):
+    import copy
+
+    import chuk_mcp.server.session.memory as mem
+    from chuk_mcp.server.session.base import BaseSessionManager, SessionInfo
+    from chuk_mcp.server.session.memory import InMemorySessionManager
+
+    if kind == "stock":
+        return InMemorySessionManager()
+    if kind.startswith("subclass"):
+        class Copying(InMemorySessionManager):
+            def get_session(self, session_id):
+                return copy.deepcopy(super().get_session(session_id))
+
+            def list_sessions(self):
+                return copy.deepcopy(super().list_sessions())
+
+        return Copying()
+
+    class Rows(BaseSessionManager):
+        """An independent implementation: rows are dicts, every read materialises a new SessionInfo."""
+
+        def __init__(self):
+            self.rows: Dict[str, Dict[str, Any]] = {}
+
+        def _rec(self, sid):
+            r = self.rows[sid]
+            return SessionInfo(sid, copy.deepcopy(r["ci"]), r["pv"], r["created"], r["last"], {})
+
+        def create_session(self, client_info, protocol_version, metadata=None):
+            sid = self.generate_session_id()
+            now = mem.time.time()
+            self.rows[sid] = {"ci": copy.deepcopy(client_info), "pv": protocol_version, "created": now, "last": now}
+            return sid
+
+        def get_session(self, session_id):
+            return self._rec(session_id) if session_id in self.rows else None
+
+        def update_activity(self, session_id):
+            if session_id in self.rows:
+                self.rows[session_id]["last"] = mem.time.time()
+                return True
+            return False
+
+        def cleanup_expired(self, max_age=3600):
+            now = mem.time.time()
+            gone = [k for k, r in self.rows.items() if now - r["last"] > max_age]
+            for k in gone:
+                del self.rows[k]
+            return len(gone)
+
+        def list_sessions(self):
+            return {k: self._rec(k) for k in self.rows}
+
+        def delete_session(self, session_id):
+            return self.rows.pop(session_id, None) is not None
+
+    return Rows()
+
+
+def run_other_store(ctl: explorer.Ctl, cfg: Dict[str, Any]) -> Dict[str, Any]:
+    from chuk_mcp.protocol.messages.json_rpc_message import parse_message
+
+    kind, what, when = OTHER_STORES[cfg["store"]], STORE_MESSAGES[cfg["msg"]], cfg["when"]
+    viol: List[dict] = []
+
+    def bad(cls, msg, **extra):
+        viol.append({"sig": {"class": cls, "store": kind, "message": what, **extra},
+                     "msg": f"handler.session_manager = {kind}; {what} carrying the session id, sent {when} s after initialize: {msg}"})
+
+    with Seams() as sm_seams:
+        sm_seams.reset()
+        clock = sm_seams.clock
+        handler = _factory()()
+        handler.session_manager = make_other_store(kind)
+        store = handler.session_manager
+        outcome = {"v": ""}
+
+        async def main():
+            init = {"jsonrpc": "2.0", "id": 1, "method": "initialize",
+                    "params": {"protocolVersion": "2025-06-18", "capabilities": {}, "clientInfo": {"name": "c"}}}
+            sid = (await handler.handle_message(parse_message(init), None))[1]
+            other = (await handler.handle_message(parse_message(init), None))[1]
+            if not isinstance(sid, str) or store.get_session(sid) is None:
+                bad("no-session-recorded", "initialize recorded nothing in the plugged-in store")
+                return
+            clock.now += when
+            wire = {"ping": {"jsonrpc": "2.0", "id": 2, "method": "ping"}, "unknown-method": {"jsonrpc": "2.0", "id": 2, "method": "no/such"},
+                    "notification": {"jsonrpc": "2.0", "method": "notifications/initialized"},
+                    "second-initialize": dict(init, id=2),
+                    "tools-less-request-with-params": {"jsonrpc": "2.0", "id": 2, "method": "tools/list", "params": {"cursor": None}},
+                    "no-message": None}[what]
+            if wire is not None:
+                try:
+                    await handler.handle_message(parse_message(wire), sid)
+                except Exception as e:  # noqa: BLE001
+                    bad("dispatch-raised", f"raised {type(e).__name__}: {str(e)[:80]}")
+                    return
+                rec = store.get_session(sid)
+                if rec is None or rec.last_activity != clock.now:
+                    bad("dispatch-did-not-refresh-activity", f"the store's record says last_activity="
+                                                             f"{getattr(rec, 'last_activity', None)} at now={clock.now}")
+            # 10.5 s after initialize: whoever was not heard from since is idle for longer than 10 s
+            clock.now = T0 + 10.5
+            removed = store.cleanup_expired(10)
+            alive = store.get_session(sid) is not None
+            used = wire is not None and when > 0.5
+            if used and not alive:
+                bad("active-session-expired", f"the session was used {10.5 - when} s ago and cleanup_expired(10) removed it "
+                                              f"({removed} removed)")
+            if not used and alive:
+                bad("wrong-expiry", f"the session was last used {10.5 - (when if wire is not None else 0)} s ago and is still there",
+                    detail="kept:idle>max_age")
+            if store.get_session(other) is not None:
+                bad("wrong-expiry", "the other session, never used for 10.5 s, is still there", detail="kept:idle>max_age")
+            outcome["v"] = f"{'alive' if alive else 'expired'}"
+
+        loop = new_loop(horizon=5)
+        status, val = loop.run_main(main())
+        errors = loop.collect_errors()
+        loop.abandon()
+    if status != "ok":
+        raise core.HarnessError(f"other store {cfg} did not complete: {status} {val!r}")
+    if errors:
+        raise core.HarnessError(f"other store {cfg}: event loop reported {errors[:2]}")
+    return {"outcome": outcome["v"], "violations": viol[:2]}
+
+
+def other_store_configs() -> List[Dict[str, Any]]:
+    return [{"store": s_, "msg": m, "when": w} for s_ in range(len(OTHER_STORES)) for m in range(len(STORE_MESSAGES))
+            for w in (0.5, 5.0, 9.5, 10.0)]
+
+
 def run(tier: str, only=None) -> core.Result:
     res = core.Result("C19", "model_checking")
     depth = 5 if tier == "quick" else 6
@@ -1315,6 +1522,14 @@ def run(tier: str, only=None) -> core.Result:
     ncfgs = near_configs()
     outn = explorer.explore(RUN_NEAR, ncfgs)
     sched.absorb(res, "near-miss-session-ids", RUN_NEAR, outn, ncfgs, min_outcomes=1)
+    ocfgs = other_store_configs()
+    outo = explorer.explore(RUN_STORES, ocfgs)
+    sched.absorb(res, "other-session-stores-behind-the-handler", RUN_STORES, outo, ocfgs)
+    chcfgs = [{"flag": f, "depth": 3 if tier == "quick" else 4} for f in range(len(CHILD_FLAGS))]
+    outch = explorer.explore(RUN_CHILD, chcfgs, workers=2)
+    sched.absorb(res, "interpreter-with-assertions-disabled", RUN_CHILD, outch, chcfgs, min_outcomes=1)
+    res.coverage["child_interpreter_executions"] = res.parts["interpreter-with-assertions-disabled"]["counters"].get(
+        "child-interpreter-executions", 0)
     mcfgs = misc_configs()
     outm = explorer.explore(RUN_MISC, mcfgs)
     sched.absorb(res, "independent-records-and-mass-expiry", RUN_MISC, outm, mcfgs)
@@ -1389,7 +1604,11 @@ def run(tier: str, only=None) -> core.Result:
         "created, and the live session still expires by its own idle time.  Records: initialize without clientInfo / capabilities twice "
         "on one handler, once on another, once with clientInfo; writing into one record's client_info / metadata in place leaves the "
         "other records and a later handler's initialize as they were.  One sweep over 1 / 19 / 20 / 21 / 30 / 100 / 1000 expired and 2 "
-        "fresh sessions removes exactly the expired ones - also with the library's logging at DEBUG"
+        "fresh sessions removes exactly the expired ones - also with the library's logging at DEBUG.  Other stores behind the handler (stock, a subclass returning deep "
+        "copies, an independent BaseSessionManager keeping rows as dicts): ping / unknown method / notification / second initialize / "
+        "request with params carrying the session id 0.5 / 5 / 9.5 / 10 s after initialize, then cleanup 10.5 s after it: the store's "
+        "record is refreshed and the session survives exactly when it was used within the limit.  Child interpreters started with -O "
+        "and -OO run a sequential search to depth 3 (thorough 4) plus the mass-expiry and near-miss batteries"
     )
     res.assumptions = [
         "two ProtocolHandler objects built with the same arguments are independent servers: a session created through one is "
